@@ -14,7 +14,7 @@ ASSUMPTIONS = ['SGR effect-group model of DESIGN 2.1 is the meaning of "conformi
                'ansi_settings_at/base_str are the observation channel for the reported styles',
                'values with ill-formed setting texts or ESC in the text are grey (not judged)']
 MIN_EVAL = 300
-CASES = {'quick': 480, 'thorough': 9000}
+CASES = {'quick': 480, 'thorough': 5000}
 WEIGHTS = {'apply': 12, 'remove': 5, 'query': 0.2, 'find_settings': 0.2, 'settings_at': 0.2, 'to_str': 0.3,
            'format': 0.5}
 
